@@ -149,7 +149,7 @@ int abtmc_main(int argc, char **argv, const abtmc_driver *d)
         else if (!strcmp(argv[i], "--out") && i + 1 < argc)
             out = argv[++i];
     }
-    long runs = 0, tsan = 0, oracle = 0, other = 0, timeouts = 0;
+    long runs = 0, tsan = 0, tsan_lib = 0, oracle = 0, other = 0, timeouts = 0;
     char first[400] = "";
     for (int c = 0; c < d->nconfigs; c++) {
         if (only >= 0 && c != only)
@@ -182,7 +182,26 @@ int abtmc_main(int argc, char **argv, const abtmc_driver *d)
             int is_tsan = strstr(buf, "ThreadSanitizer: data race") != NULL;
             if (is_tsan) {
                 tsan++;
-                if (!first[0]) {
+                /* does the first access of the report lie in libabt (and not in
+                 * the driver's own bookkeeping, which the controlled scheduler
+                 * serialises but a free run does not)? */
+                const char *q0 = strstr(buf, "ThreadSanitizer: data race");
+                const char *f0 = q0 ? strstr(q0, "#0 ") : NULL;
+                const char *nl = f0 ? strchr(f0, '\n') : NULL;
+                int in_lib = 0;
+                if (f0 && nl) {
+                    size_t len = (size_t)(nl - f0);
+                    char line[400];
+                    if (len >= sizeof(line))
+                        len = sizeof(line) - 1;
+                    memcpy(line, f0, len);
+                    line[len] = 0;
+                    in_lib = strstr(line, "/src/") != NULL &&
+                             strstr(line, "/verif/") == NULL;
+                }
+                if (in_lib)
+                    tsan_lib++;
+                if (in_lib && !first[0]) {
                     const char *q = strstr(buf, "ThreadSanitizer");
                     snprintf(first, sizeof(first), "cfg %d: %.300s", c, q);
                     for (char *z = first; *z; z++)
@@ -199,9 +218,10 @@ int abtmc_main(int argc, char **argv, const abtmc_driver *d)
     }
     FILE *f = out ? fopen(out, "w") : stdout;
     fprintf(f, "{\"driver\":\"%s\",\"runs\":%ld,\"tsan_reports\":%ld,"
+               "\"tsan_reports_in_libabt\":%ld,"
                "\"oracle_failures\":%ld,\"timeouts\":%ld,\"other_failures\":%ld,"
                "\"first_report\":\"%s\"}\n",
-            d->name, runs, tsan, oracle, timeouts, other, first);
+            d->name, runs, tsan, tsan_lib, oracle, timeouts, other, first);
     if (out)
         fclose(f);
     return 0;
